@@ -384,7 +384,7 @@ func zzH_C12_range(t *zzT) {
 //
 //zz:opt loop=16
 //zz:quick N=2 K=1 VLO=1
-//zz:thorough N=3 K=2
+//zz:thorough N=3 K=2 VLO=1
 func zzH_C12_iterate_whole_view(t *zzT) {
 	sc := zzBuild(t, 1)
 	sc.zzOps(t, 0, t.Param("K", 1))
@@ -522,7 +522,7 @@ func zzH_C12_commit_reopen(t *zzT) {
 //
 //zz:opt loop=16 require=created-then-deleted,overwritten-then-deleted,deleted-then-recreated
 //zz:quick N=2 K=2 VLO=1 READS=1
-//zz:thorough N=1 K=3 VHI=2 READS=1
+//zz:thorough N=1 K=3 VHI=2 READS=1 paths=1000000
 func zzH_C05_commit_revert(t *zzT) {
 	sc, infos, diff := zzCommitScenario(t)
 	t.Assert(zzSameStore(sc.store, sc.ref), "Commit writes exactly the staged final state")
